@@ -11,7 +11,7 @@ impl<T: Copy + Default> Vec<T> {
     pub fn pop(&mut self) -> Option<T> { if self.len == 0 { None } else { self.len -= 1; Some(self.buf[self.len]) } }
     pub fn clear(&mut self) { self.len = 0; }
     pub fn remove(&mut self, idx: usize) -> T {
-        assert!(idx < self.len, "removal index (is {index}) should be < len (is {len})");
+        assert!(idx < self.len, "removal index should be < len");
         let r = self.buf[idx];
         let mut i = idx;
         while i + 1 < self.len { self.buf[i] = self.buf[i + 1]; i += 1; }
@@ -31,7 +31,7 @@ impl<T: Copy + Default> Vec<T> {
         self.len -= n;
     }
     pub fn split_off(&mut self, at: usize) -> Self {
-        assert!(at <= self.len, "`at` split index (is {at}) should be <= len (is {len})");
+        assert!(at <= self.len, "`at` split index should be <= len");
         let mut o = Self::default();
         let mut i = at;
         while i < self.len { o.push(self.buf[i]); i += 1; }
